@@ -1,17 +1,17 @@
 SPECIFICATION GenSpec
 CONSTANTS
-  Kinds <- AllKinds
-  WLA <- WLNoM
+  Kinds <- OnlyQUIC
+  WLA <- WLVictim
   WLB <- OnlyAll
   Weak <- NoWeak
   MaxConn = 3
   MaxSend = 4
   MaxAdv = 9
   CacheMax = 16
-  Extras = {}
+  Extras = {"A", "B", "M"}
   Asks = {FALSE, TRUE}
-  Fam = "auth"
-  Depth = 3
-  DepthAtomic = 1
+  Fam = "cred"
+  Depth = 0
+  DepthAtomic = 0
   MaxSteps = 8
 CHECK_DEADLOCK FALSE
